@@ -800,7 +800,7 @@ type dbSearcher struct{ *meta.DB }
 type shSearcher struct{ *shard.Shard }
 
 // one query shape: filters + attrs, all page sizes, all entry points.
-func checkShape(w *world, fs []filter, attrs []string, entries int) {
+func checkShape(w *world, fs []filter, attrs []string, entries int, compact bool) {
 	valid := queryValid(fs)
 	var ref []item
 	if valid {
@@ -808,7 +808,9 @@ func checkShape(w *world, fs []filter, attrs []string, entries int) {
 	}
 	n := len(ref)
 	pages := []int{1, 2, 3, n, n + 1}
-	if r.Thorough() { // every page size
+	if compact { // the primary-attribute tuples: paged one by one and unpaged
+		pages = []int{1, n + 1}
+	} else if r.Thorough() { // every page size
 		pages = pages[:0]
 		for p := 1; p <= n+1; p++ {
 			pages = append(pages, p)
@@ -985,8 +987,9 @@ func main() {
 	}
 
 	type shape struct {
-		w  string
-		fs []filter
+		w       string
+		fs      []filter
+		compact bool // filters all on the primary attribute: attrs = [primary], page sizes {1, N+1}, metabase only
 	}
 	var shapes []shape
 	counts := map[string]int{}
@@ -1002,9 +1005,9 @@ func main() {
 				T = append(T, f)
 			}
 		}
-		shapes = append(shapes, shape{w, nil})
+		shapes = append(shapes, shape{w: w})
 		for _, f := range F {
-			shapes = append(shapes, shape{w, []filter{f.filter}})
+			shapes = append(shapes, shape{w: w, fs: []filter{f.filter}})
 		}
 		counts["filters/"+c.name] = len(F)
 		counts["reduced/"+c.name] = len(Q)
@@ -1017,7 +1020,7 @@ func main() {
 				if a.filter == b.filter {
 					continue
 				}
-				shapes = append(shapes, shape{w, []filter{a.filter, b.filter}})
+				shapes = append(shapes, shape{w: w, fs: []filter{a.filter, b.filter}})
 			}
 		}
 		if r.Thorough() {
@@ -1027,12 +1030,42 @@ func main() {
 						if a.filter == b.filter || t.filter == a.filter || t.filter == b.filter {
 							continue
 						}
-						shapes = append(shapes, shape{w, []filter{a.filter, b.filter, t.filter}})
+						shapes = append(shapes, shape{w: w, fs: []filter{a.filter, b.filter, t.filter}})
 					}
 				}
 			}
 		}
 	}
+	// Several filters on the PRIMARY attribute (both tiers): every ordered triple and quadruple of distinct filters over
+	// an alphabet with one or two filters of every matcher kind (string EQ / NE / PREFIX, numeric GT / GE / LT / LE,
+	// NOT_PRESENT), on the string and on the numeric corpus. This is where the interplay of "evaluated on the primary
+	// index key" and "evaluated on the stored value" filters lives.
+	primAlphabet := []filter{
+		{"A", mEQ, "1"}, {"A", mEQ, "a"}, {"A", mNE, "a"}, {"A", mPrefix, ""}, {"A", mPrefix, "1"},
+		{"A", mGT, "0"}, {"A", mGE, "1"}, {"A", mLT, "10"}, {"A", mLE, "1"}, {"A", mNotPresent, ""},
+	}
+	nTuples := 0
+	for _, cn := range []string{"str", "num"} {
+		for _, k := range []int{3, 4} {
+			enumx.Seqs(len(primAlphabet), k, func(ix []int) bool {
+				for a := range ix {
+					for b := a + 1; b < len(ix); b++ {
+						if ix[a] == ix[b] {
+							return true
+						}
+					}
+				}
+				fs := make([]filter, k)
+				for i, x := range ix {
+					fs[i] = primAlphabet[x]
+				}
+				shapes = append(shapes, shape{w: cn, fs: fs, compact: true})
+				nTuples++
+				return true
+			})
+		}
+	}
+	counts["primary-attribute-tuples"] = nTuples
 	var expired atomic.Bool
 	enumx.Parallel(len(shapes), func(i int) {
 		if expired.Load() {
@@ -1040,8 +1073,12 @@ func main() {
 		}
 		s := shapes[i]
 		ws := <-pool
-		for _, attrs := range attrModes(s.fs) {
-			checkShape(ws[s.w], s.fs, attrs, 2)
+		if s.compact {
+			checkShape(ws[s.w], s.fs, []string{s.fs[0].K}, 1, true)
+		} else {
+			for _, attrs := range attrModes(s.fs) {
+				checkShape(ws[s.w], s.fs, attrs, 2, false)
+			}
 		}
 		pool <- ws
 		if i&0xff == 0 && r.Expired() {
@@ -1064,7 +1101,7 @@ func main() {
 	}
 	r.Set("corpora", cd)
 	r.Rule("every filter list = {} + every single filter of the per-corpus filter alphabet + every ordered pair (quick: of the reduced set; thorough: of the full alphabet) " +
-		"+ (thorough) triples reduced x reduced x 8 third filters; x attrs {none, [primary], [primary, second]} x page sizes {1,2,3,N,N+1} (thorough: every size 1..N+1) through DB.Search, and {1,2,N+1} through Shard.Search, plus DB.Select/Shard.Select; " +
+		"+ (thorough) triples reduced x reduced x 8 third filters; + (both tiers) every ordered triple and quadruple of distinct filters on the primary attribute A over a 10-filter alphabet (string EQ/NE/PREFIX, numeric GT/GE/LT/LE, NOT_PRESENT) on the corpora str and num with attrs=[A], page sizes {1,N+1}; x attrs {none, [primary], [primary, second]} x page sizes {1,2,3,N,N+1} (thorough: every size 1..N+1) through DB.Search, and {1,2,N+1} through Shard.Search, plus DB.Select/Shard.Select; " +
 		"one evaluation = one query paged to exhaustion; non-trivial = distinct valid (corpus, filters, attrs) whose reference result is non-empty")
 	r.Exhaustive(!expired.Load())
 	r.Assume("availability in the corpora is limited to unambiguous cases (tombstoned, default garbage mark, own expiration; one locked object): the full visibility rules are C01's subject",
